@@ -76,6 +76,17 @@ reg(
     "Trusted: pdv/refmodel/{sde,lin}.py. Calls whose residual is rounding noise (condition > 1e5) are not judged (counted).",
 )
 
+reg(
+    "C02",
+    "reference-model monitor: 50-digit textbook EKF (covariance form) vs solve_fixed_grid filter runs, per-transition conformance restarted from the repo's own square-root posterior plus independent end-to-end recursion",
+    "Random polynomial IVPs x random grids x nu<=8 x 3 factorisations x {uncalibrated, MLE +-correction, dynamic +-relinearise} "
+    "x {TS0, TS1, residual} x damp x {IWP, OU, Matern} x {exact, inexact, diffuse + initial-constraint update} x base scales. "
+    "All Taylor components of means, full covariances and output scales are compared in scaled form (1e-8 per transition, "
+    "1e-6 end to end) with rounding-aware slack derived inside the reference (noise of the residual, propagated).",
+    "Trusted: pdv/refmodel/{kalman,lin,sde,mpl}.py (mpmath). Problems whose solution explodes on the grid (|mean|>1e4) and "
+    "calibrated covariances whose scale estimate is rounding noise are not judged (counted in evidence).",
+)
+
 NOT_BUILT_REASON = "check under construction in this session; not yet registered"
 
 
